@@ -153,3 +153,21 @@ func Frames(v V, o Opts, emit func(Case)) {
 		}
 	}
 }
+
+// NamedMsg is a base message with its name.
+type NamedMsg struct {
+	Name string
+	Msg  message.Message
+}
+
+// BasesPublic exposes the base messages of a version.
+func BasesPublic(v V) []NamedMsg {
+	var out []NamedMsg
+	for _, b := range Bases(v) {
+		out = append(out, NamedMsg{b.name, b.msg})
+	}
+	return out
+}
+
+// ValidMsgPublic exposes the message-level validity predicate.
+func ValidMsgPublic(m message.Message, v V) bool { return validMsg(m, v) }
